@@ -84,6 +84,18 @@ pub trait Family: 'static + Sized {
     ) -> std::pin::Pin<Box<dyn std::future::Future<Output = Self::Res> + 'a>> {
         Box::pin(async move { Self::exec(objs, l, t, op) })
     }
+    /// C15: happens-before edges the property *requires* (entry index of the earlier Ret, entry index
+    /// of the later Ret), derived from the log by API-level rules.
+    fn hb_must(_p: &Program<Self>, _log: &[Entry<Self::Res>]) -> Vec<(usize, usize)> {
+        Vec::new()
+    }
+    /// C15: the shared objects an operation touches (any two operations on a common object may
+    /// exchange causality).
+    fn objects_of(_op: &Self::Op) -> Vec<u32> {
+        Vec::new()
+    }
+    /// Reset harness-side global ledgers before a fresh `Runner::run` (C14).
+    fn reset_globals() {}
     /// Name to give thread `t` through `thread::Builder` (None = plain `thread::spawn`).
     fn thread_name(_cfg: &Self::Cfg, _t: usize) -> Option<String> {
         None
@@ -259,6 +271,8 @@ pub struct Entry<R> {
     pub thread: usize,
     pub task: usize,
     pub op: usize,
+    /// the task's vector clock when the entry was written (Ret / End entries; empty otherwise)
+    pub clock: Vec<u32>,
     pub kind: EKind<R>,
 }
 
@@ -283,11 +297,17 @@ fn run_thread<F: Family>(ctx: Arc<SS<Ctx<F>>>, t: usize) -> u32 {
     let push = |op: usize, kind: EKind<F::Res>| {
         let mut l = c.log.borrow_mut();
         let cur = l.last_mut().expect("log of current execution");
+        let clock = if matches!(kind, EKind::Ret(_) | EKind::End | EKind::Start) {
+            shuttle::current::clock().iter().cloned().collect()
+        } else {
+            Vec::new()
+        };
         cur.push(Entry {
             stamp: crate::explore::decision_stamp(),
             thread: t,
             task: me,
             op,
+            clock,
             kind,
         });
         MAIN_LOG_LEN.with(|n| n.set(cur.len()));
@@ -341,11 +361,17 @@ async fn run_task<F: Family>(ctx: Arc<SS<Ctx<F>>>, t: usize) -> u32 {
     let push = |op: usize, kind: EKind<F::Res>| {
         let mut l = c.log.borrow_mut();
         let cur = l.last_mut().expect("log of current execution");
+        let clock = if matches!(kind, EKind::Ret(_) | EKind::End | EKind::Start) {
+            shuttle::current::clock().iter().cloned().collect()
+        } else {
+            Vec::new()
+        };
         cur.push(Entry {
             stamp: crate::explore::decision_stamp(),
             thread: t,
             task: me,
             op,
+            clock,
             kind,
         });
         MAIN_LOG_LEN.with(|n| n.set(cur.len()));
@@ -551,7 +577,7 @@ pub fn base_config() -> Config {
 pub type Logs<R> = Rc<RefCell<Vec<Vec<Entry<R>>>>>;
 pub type AuxLogs = Rc<RefCell<Vec<Vec<AuxEntry>>>>;
 
-fn make_body<F: Family>(prog: &Arc<SS<Program<F>>>, logs: &Logs<F::Res>, auxs: &AuxLogs) -> impl Fn() + Send + Sync + 'static {
+pub fn make_body<F: Family>(prog: &Arc<SS<Program<F>>>, logs: &Logs<F::Res>, auxs: &AuxLogs) -> impl Fn() + Send + Sync + 'static {
     let prog = prog.clone();
     let logs = SS(logs.clone());
     let auxs = SS(auxs.clone());
@@ -1761,4 +1787,16 @@ pub fn pending_kind<F: Family>(p: &Program<F>, t: usize, called: &[usize]) -> St
         return "none".into();
     }
     crate::drive::op_kind_name(&format!("{:?}", OpDbg(&p.threads[t][i - 1])))
+}
+
+
+/// Index of the last clock-carrying entry (Start / Ret / End) of `thread` strictly before log
+/// position `before`: "what that thread had done before the operation".
+pub fn prev_clocked<R>(log: &[Entry<R>], before: usize, thread: usize) -> Option<usize> {
+    (0..before).rev().find(|&i| log[i].thread == thread && matches!(log[i].kind, EKind::Start | EKind::Ret(_) | EKind::End))
+}
+
+/// Log position of the Call entry of (thread, op).
+pub fn call_of<R: PartialEq>(log: &[Entry<R>], thread: usize, op: usize) -> Option<usize> {
+    log.iter().position(|e| e.thread == thread && e.op == op && e.kind == EKind::Call)
 }
